@@ -149,29 +149,23 @@ class ModelRegistry:
                 models2merge[model_a].add(model_b)
                 models2merge[model_b].add(model_a)
 
-        # Groups of models to merge
-        groups: Iterable[Set[ModelMeta]] = [{model, *models} for model, models in models2merge.items()]
-        # Make groups non-overlapping.
-        # This is not optimal algorithm but it works and we probably will not have thousands of models here.
-        flag = True
-        while flag:
-            flag = False
-            new_groups: OrderedSet[FrozenSet[ModelMeta]] = OrderedSet()
-            for gr1 in groups:
-                in_set = False
-                for gr2 in groups:
-                    if gr1 is gr2:
-                        continue
-                    if gr1 & gr2:
-                        in_set = True
-                        old_len = len(new_groups)
-                        new_groups.add(frozenset(gr1 | gr2))
-                        added = old_len < len(new_groups)
-                        flag = flag or added
-                if not in_set:
-                    new_groups.add(gr1)
-            if flag:
-                groups: OrderedSet[FrozenSet[ModelMeta]] = new_groups
+        # Groups of models to merge: connected components of the "similar models" graph
+        # ordered by the first model of each group (iterative pairwise union of overlapping groups
+        # gives the same result but needs exponential time when dozens of models are similar to each other)
+        groups: List[Set[ModelMeta]] = []
+        grouped: Set[ModelMeta] = set()
+        for model in models2merge:
+            if model in grouped:
+                continue
+            group = {model}
+            stack = [model]
+            while stack:
+                for other in models2merge[stack.pop()]:
+                    if other not in group:
+                        group.add(other)
+                        stack.append(other)
+            grouped |= group
+            groups.append(group)
 
         replaces = []
         replaces_ids = set()
